@@ -8,7 +8,7 @@ import GB.Base.LTS
                         StandardTranscoder.Bind      → `bind` (marshaler choice, SSE negotiation, refusals)
                         standardResponseTranscoder.ContentType → `responseContentType` (fixed code; D15 = `…PreFix`)
   webbridge/http.go     TranscodedHTTPBridge.ServeHTTP / httpStream.send → `httpOutcome`
-  webbridge/websocket.go gwsStream.send → `wsOut`; websocketError → `websocketError`; closeReason → `closeReason`;
+  webbridge/websocket.go gwsStream.send → `wsOut`; websocketError → `websocketError`; closeReason → `closeReasonWhole` (= `closeReason` ∘ `toValidUTF8`);
                         gwsStream.Recv / gwsHandler.OnMessage / ServeHTTP's close(done) → the LTS `step`
   gws                   Conn.emitError truncates the close payload to 125 bytes → `gwsClosePayload` (environment)
 -/
@@ -116,6 +116,19 @@ def statusContentType (b : Bound) : Bytes := b.respM.mime
 /-- …and as it was before the fix (ignores `isSSE`). -/
 def responseContentTypePreFix (b : Bound) : Bytes := b.respM.mime
 
+/-! ## where record framing is applied
+
+  `standardResponseTranscoder.Transcode` marshals one message (or status) and returns the marshaler's bare
+  document — for every binding, SSE or not. Framing is the business of the stream encoders only
+  (`jsonEncoder.Encode` appends the line feed, `sseResponseStream.Transcode` wraps into `data:…\n\n`);
+  the unary HTTP body and every WebSocket message (`gwsStream.send`) are built from `Transcode` directly. -/
+
+/-- `standardResponseTranscoder.Transcode` on top of the marshaler's output `p` -/
+def transcodeMsg (_b : Bound) (p : Bytes) : Bytes := p
+
+/-- seeded variant C13-m10: framing moved into the per-message `Transcode` of an SSE-bound transcoder -/
+def transcodeMsgM10 (b : Bound) (p : Bytes) : Bytes := if b.isSSE then dataPrefix ++ p ++ [LF, LF] else p
+
 /-! ## TranscodedHTTPBridge.ServeHTTP, as far as framing is concerned -/
 
 /-- grpc-gateway `HTTPStatusFromCode`. -/
@@ -167,6 +180,68 @@ def httpOutcome (ms : List Marshaler) (dflt : Marshaler) (r : BindReq) (wholeBod
         | _, .err c _ => { status := httpStatusFromCode c, ct := some ct, body := none }
         | _, _ => { status := 503, ct := some ct, body := none }
 
+/-! ## HTTP: the server-streaming loop as a sequence of write / flush events
+
+  `ProxyForwarder.forwardOutgoingToIncoming`: `for { outgoing.Recv(msg); Incoming.Send(msg) }`;
+  `httpStream.send` with a stream transcoder: `respstream.Transcode(msg)` — one `Write` of one framed record
+  (`jsonEncoder.Encode` / `sseResponseStream.Transcode`) — then `flusher.Flush()`. -/
+
+inductive WEv
+  /-- the target's `Recv` returned response `i` (0-based) -/
+  | targetRecv (i : Nat)
+  /-- one `Write` on the response -/
+  | write (b : Bytes)
+  /-- `http.Flusher.Flush` -/
+  | flush
+deriving DecidableEq, Repr
+
+/-- `httpStream.send` on a streamed response -/
+def sendEvents (sse : Bool) (p : Bytes) : List WEv := [.write (if sse then sseEvent p else jsonLine p), .flush]
+
+/-- `send` as it would be without the flush (seeded variant M2) -/
+def sendEventsNoFlush (sse : Bool) (p : Bytes) : List WEv := [.write (if sse then sseEvent p else jsonLine p)]
+
+/-- the response loop of the forwarder from message index `i` on -/
+def streamTraceFrom (send : Bytes → List WEv) : Nat → List Bytes → List WEv
+  | _, [] => []
+  | i, p :: rest => .targetRecv i :: send p ++ streamTraceFrom send (i + 1) rest
+
+def streamTrace (sse : Bool) (ps : List Bytes) : List WEv := streamTraceFrom (sendEvents sse) 0 ps
+
+/-- the response as the client can see it: written bytes sit in the server's buffer until a flush -/
+structure Wire where
+  buffered : Bytes
+  visible : Bytes
+deriving DecidableEq, Repr
+
+def wireStep (w : Wire) : WEv → Wire
+  | .write b => { w with buffered := w.buffered ++ b }
+  | .flush => { buffered := [], visible := w.visible ++ w.buffered }
+  | .targetRecv _ => w
+
+def wireRun (evs : List WEv) : Wire := evs.foldl wireStep { buffered := [], visible := [] }
+
+/-- model-free discipline on a trace: whenever the target is asked for the next message, and at the end,
+    nothing written is still unflushed (`dirty` = something was written since the last flush) -/
+def flushedBeforeRecv : Bool → List WEv → Bool
+  | dirty, [] => !dirty
+  | dirty, .targetRecv _ :: r => !dirty && flushedBeforeRecv false r
+  | _, .write _ :: r => flushedBeforeRecv true r
+  | _, .flush :: r => flushedBeforeRecv false r
+
+/-- the regenerated shape of `httpStream.send`'s streaming block: the statement right after the one that calls
+    `respstream.Transcode` is `s.flusher.Flush()` -/
+def flushFollowsTranscode (shape : List String) : Bool :=
+  match shape.dropWhile (· != "transcode") with
+  | "transcode" :: "flush" :: rest => !rest.contains "transcode"
+  | _ => false
+
+/-- each stream encoder performs exactly one `Write` per message, with the framed record as its argument -/
+def encoderWritesOK (ws : List (String × List String)) (delim : String) : Bool :=
+  ws == [("jsonEncoder.Encode", ["append(b,jsonDelimiter)"]),
+         ("sseResponseStream.Transcode", ["slices.Concat([]byte(\"data:\"),b,[]byte(\"\\n\\n\"))"])] &&
+  delim == "'\\n'"
+
 /-! ## WebSocket: outgoing messages -/
 
 structure WsMsg where
@@ -178,6 +253,18 @@ deriving DecidableEq, Repr
 def wsSend (binary : Bool) (p : Bytes) : WsMsg := { binary, payload := p }
 
 def wsOut (binary : Bool) (ps : List Bytes) : List WsMsg := ps.map (wsSend binary)
+
+/-- the WebSocket messages of a call bound as `b` (the handshake's headers went through `bind`): built from
+    the per-message `Transcode`, never from a stream encoder -/
+def wsFrames (tc : Bound → Bytes → Bytes) (b : Bound) (ps : List Bytes) : List WsMsg :=
+  ps.map (fun p => wsSend b.respM.binary (tc b p))
+
+/-- the HTTP stream body of a call bound as `b`: stream encoder on top of `Transcode` (with the variant's
+    `Transcode` the SSE encoder writes its result as is) -/
+def httpStreamBody (b : Bound) (ps : List Bytes) : Bytes := streamBody b.isSSE (ps.map (transcodeMsg b))
+
+def httpStreamBodyM10 (b : Bound) (ps : List Bytes) : Bytes :=
+  ps.flatMap (fun p => if b.isSSE then transcodeMsgM10 b p else jsonLine (transcodeMsgM10 b p))
 
 /-! ## WebSocket: close frame -/
 
@@ -292,12 +379,13 @@ def truncPoint (r : Bytes) : Nat → Nat
 
 def maxCloseReasonLen : Nat := 123
 
-/-- `closeReason` after its first statement: cut at most 123 bytes, backing off to a rune start. -/
-def truncReason (r : Bytes) : Bytes :=
+/-- `closeReason` (webbridge/websocket.go) AFTER its first statement `reason = strings.ToValidUTF8(reason, "\uFFFD")`:
+    cut at most 123 bytes, backing off to a rune start. (Name kept from the earlier rounds — C17 refers to it.) -/
+def closeReason (r : Bytes) : Bytes :=
   if r.length ≤ maxCloseReasonLen then r else r.take (truncPoint r maxCloseReasonLen)
 
-/-- `closeReason` (webbridge/websocket.go), whole: `strings.ToValidUTF8(reason, "\uFFFD")`, then the cut. -/
-def closeReason (r : Bytes) : Bytes := truncReason (toValidUTF8 r)
+/-- `closeReason` (webbridge/websocket.go), the whole function: `strings.ToValidUTF8(reason, "\uFFFD")`, then the cut. -/
+def closeReasonWhole (r : Bytes) : Bytes := closeReason (toValidUTF8 r)
 
 /-- gws `Conn.emitError`: code ++ reason, cut to 125 bytes (environment fact). -/
 def gwsClosePayload (code : Nat) (reason : Bytes) : Bytes :=
@@ -306,7 +394,7 @@ def gwsClosePayload (code : Nat) (reason : Bytes) : Bytes :=
 /-- The close frame a client sees when `ServeHTTP` ends with `res`: (code, reason). -/
 def closeFrame (res : FwdResult) : Nat × Bytes :=
   let (c, r) := websocketError res
-  (c, (gwsClosePayload c (closeReason r)).drop 2)
+  (c, (gwsClosePayload c (closeReasonWhole r)).drop 2)
 
 /-- Before the fix the reason went to gws unmodified. -/
 def closeFramePreFix (res : FwdResult) : Nat × Bytes :=
